@@ -506,6 +506,8 @@ def predict_events(data, mode="r"):
             size = struct.unpack(">I" if be else "<I", data[pos + 4:pos + 8])[0]
             body = data[pos + 8:pos + 8 + size]
             nch += 1
+            if pos + 8 + size > n + 1 and not (cid == b"data" and data[:4] == b"RF64"):
+                return None         # a length field that lies (e.g. RIFX + cart: the data length is written little-endian): the parser's recovery is not predicted
             if cid == b"PEAK":
                 bits.add(5)
             elif cid == b"bext":
@@ -758,6 +760,14 @@ def shrink_malformed(ctx, sc, fmt):
     waived = False
     for s1 in singles:
         why = judge_end(s1, tr[s1.name])
+        if why and why[0].startswith("sanitizer/crash marker"):
+            # an abort must reproduce when the case runs alone (a length field asking for gigabytes aborts only when the machine is short
+            # of memory: that is C03's subject, and not a leak)
+            lines, rc, err = ctx.script(s1.script(), env=LEAK_ENV, timeout=120)
+            if rc == 0 and not judge_end(s1, [l for l in lines if l.startswith(KEEP)]):
+                ctx.notes["aborts_not_reproduced_alone"] = ctx.notes.get("aborts_not_reproduced_alone", 0) + 1
+                waived = True
+                continue
         if why:
             if waive_known(ctx, s1.script()):
                 waived = True       # in the class and with the signature of a known finding: look on for a failure that is not
